@@ -1,5 +1,512 @@
-use crate::mc::Eng;
+//! C06 — motion profile accessors agree with each other at every instant.
+//! C07 — the profile is a valid trapezoid: continuous, within limits, reaches the goal.
+use crate::env::*;
+use crate::mc::*;
 use crate::Ctx;
-pub fn run(_ctx: &Ctx, _second: bool) -> Vec<Eng> {
-    vec![]
+use rrtk::*;
+
+#[derive(Clone, Copy, Debug)]
+pub struct Spec {
+    p0: f32,
+    v0: f32,
+    p1: f32,
+    v1: f32,
+    a1: f32,
+    vmax: f32, // as passed (may be negative: the constructor takes the magnitude)
+    amax: f32,
+}
+impl Spec {
+    fn build(&self) -> MotionProfile {
+        MotionProfile::new(
+            State::new_raw(self.p0, self.v0, 0.0),
+            State::new_raw(self.p1, self.v1, self.a1),
+            Quantity::new(self.vmax, MILLIMETER_PER_SECOND),
+            Quantity::new(self.amax, MILLIMETER_PER_SECOND_SQUARED),
+        )
+    }
+    fn mirror(&self) -> Spec {
+        Spec { p0: -self.p0, v0: -self.v0, p1: -self.p1, v1: -self.v1, a1: -self.a1, ..*self }
+    }
+}
+
+fn rank(p: MotionProfilePiece) -> u8 {
+    match p {
+        MotionProfilePiece::BeforeStart => 0,
+        MotionProfilePiece::InitialAcceleration => 1,
+        MotionProfilePiece::ConstantVelocity => 2,
+        MotionProfilePiece::EndAcceleration => 3,
+        MotionProfilePiece::Complete => 4,
+    }
+}
+
+/// phase boundaries read from the derived Debug output (they are private fields)
+fn debug_times(mp: &MotionProfile) -> Option<[i64; 3]> {
+    let s = format!("{:?}", mp);
+    let mut out = [0i64; 3];
+    for (i, key) in ["t1: Time(", "t2: Time(", "t3: Time("].iter().enumerate() {
+        let p = s.find(key)? + key.len();
+        let rest = &s[p..];
+        let end = rest.find(')')?;
+        out[i] = rest[..end].parse().ok()?;
+    }
+    Some(out)
+}
+/// phase boundaries recovered through the public API only: smallest t >= 0 whose piece has rank > i
+fn bisect_times(mp: &MotionProfile) -> [i64; 3] {
+    let mut out = [0i64; 3];
+    for i in 0..3 {
+        let want = i as u8 + 2;
+        let (mut lo, mut hi) = (-1i64, i64::MAX); // rank(lo) < want <= rank(hi)
+        if rank(mp.get_piece(Time(hi))) < want {
+            out[i] = i64::MAX;
+            continue;
+        }
+        while (hi as i128) - (lo as i128) > 1 {
+            let mid = ((lo as i128 + hi as i128) / 2) as i64;
+            if rank(mp.get_piece(Time(mid))) >= want {
+                hi = mid;
+            } else {
+                lo = mid;
+            }
+        }
+        out[i] = hi;
+    }
+    out
+}
+
+fn q(o: Option<Quantity>) -> Option<f32> {
+    o.map(|x| x.value)
+}
+
+#[derive(Clone, Copy, Debug, PartialEq)]
+struct At {
+    t: i64,
+    piece: u8,
+    mode: Option<u8>,
+    acc: Option<f32>,
+    vel: Option<f32>,
+    pos: Option<f32>,
+    hist: Option<(i64, u8, u32)>,
+}
+fn kind_code(p: PositionDerivative) -> u8 {
+    match p {
+        PositionDerivative::Position => 1,
+        PositionDerivative::Velocity => 2,
+        PositionDerivative::Acceleration => 3,
+    }
+}
+fn sample(mp: &MotionProfile, t: i64) -> At {
+    let h = <MotionProfile as History<Command, E>>::get(mp, Time(t));
+    At {
+        t,
+        piece: rank(mp.get_piece(Time(t))),
+        mode: mp.get_mode(Time(t)).map(kind_code),
+        acc: q(mp.get_acceleration(Time(t))),
+        vel: q(mp.get_velocity(Time(t))),
+        pos: q(mp.get_position(Time(t))),
+        hist: h.map(|d| (d.time.0, kind_code(PositionDerivative::from(d.value)), f32::from(d.value).to_bits())),
+    }
+}
+
+fn query_times(ts: [i64; 3]) -> Vec<i64> {
+    let mut v = vec![i64::MIN, i64::MIN + 1, -1_000_000_000_000_000_000, -1, 0, 1, i64::MAX - 1, i64::MAX];
+    for &b in &ts {
+        for d in [-1i64, 0, 1] {
+            if let Some(x) = b.checked_add(d) {
+                v.push(x);
+            }
+        }
+    }
+    // two interior points per phase
+    let bounds = [0, ts[0], ts[1], ts[2]];
+    for w in bounds.windows(2) {
+        if w[1] > w[0] {
+            let d = w[1] - w[0];
+            v.push(w[0] + d / 3);
+            v.push(w[0] + d / 3 * 2);
+        }
+    }
+    if let Some(x) = ts[2].checked_add(1_000_000_000) {
+        v.push(x);
+    }
+    v.sort();
+    v.dedup();
+    v
+}
+
+fn end_command_expected(s: &Spec) -> (u8, f32) {
+    // lowest non-zero derivative of the end state (-0 counts as zero)
+    if s.a1 != 0.0 {
+        (3, s.a1)
+    } else if s.v1 != 0.0 {
+        (2, s.v1)
+    } else {
+        (1, s.p1)
+    }
+}
+
+fn c06_profile(s: &Spec, mp: &MotionProfile, e: &mut Eng) {
+    let desc = |what: String| format!("{:?}: {}", s, what);
+    let dbg = debug_times(mp);
+    let bis = bisect_times(mp);
+    let ts = match dbg {
+        Some(d) => {
+            e.checks += 1;
+            if !(0 <= d[0] && d[0] <= d[1] && d[1] <= d[2]) {
+                e.violation("profile:phase-order", 1, || desc(format!("constructor returned phase boundaries t1={} t2={} t3={} (not 0 <= t1 <= t2 <= t3)", d[0], d[1], d[2])));
+                return;
+            }
+            if d != bis {
+                e.violation("profile:piece-boundaries", 1, || desc(format!("get_piece changes at {:?} but the profile's boundaries are {:?}", bis, d)));
+                return;
+            }
+            d
+        }
+        None => bis,
+    };
+    let (ek, ev) = end_command_expected(s);
+    let times = query_times(ts);
+    let mut prev_rank = 0u8;
+    for &t in &times {
+        e.checks += 1;
+        e.transitions += 6;
+        let a = sample(mp, t);
+        let a2 = sample(mp, t);
+        let fail = |e: &mut Eng, cls: &str, what: String| {
+            e.violation(&format!("profile:{}", cls), 1, || desc(format!("boundaries {:?}; at t={}: {} :: {:?}", ts, t, what, a)));
+        };
+        if a != a2 && !(a.acc.map(|x| x.is_nan()).unwrap_or(false)) {
+            fail(e, "impure", "two consecutive reads differ".into());
+            return;
+        }
+        // before start
+        let before = t < 0;
+        if (a.piece == 0) != before || a.mode.is_none() != before || a.acc.is_none() != before || a.hist.is_none() != before {
+            fail(e, "before-start", "piece is before-start, mode/acceleration/history are absent exactly when t < 0".into());
+            return;
+        }
+        if before {
+            if a.vel.is_some() || a.pos.is_some() {
+                fail(e, "before-start", "velocity/position present before the start".into());
+                return;
+            }
+            continue;
+        }
+        if a.piece < prev_rank {
+            fail(e, "piece-order", format!("piece went back from rank {} to {}", prev_rank, a.piece));
+            return;
+        }
+        prev_rank = a.piece;
+        // mode <-> piece
+        let piece_enum = mp.get_piece(Time(t));
+        let pd = PositionDerivative::try_from(piece_enum).ok().map(kind_code);
+        let expect_mode = match a.piece {
+            1 | 3 => Some(3),
+            2 => Some(2),
+            _ => Some(ek),
+        };
+        if a.mode != expect_mode {
+            fail(e, "mode", format!("mode should be {:?} (1=position,2=velocity,3=acceleration; end command kind {})", expect_mode, ek));
+            return;
+        }
+        if a.piece < 4 && pd != a.mode {
+            fail(e, "mode", "PositionDerivative::try_from(piece) disagrees with the mode".into());
+            return;
+        }
+        if a.piece == 4 && pd.is_some() {
+            fail(e, "mode", "PositionDerivative::try_from(Complete) must fail".into());
+            return;
+        }
+        #[cfg(feature = "dimcheck")]
+        {
+            let u = Unit::try_from(piece_enum).ok().map(unit_exps);
+            let expect_u = match a.piece {
+                1 | 3 => Some((1, -2)),
+                2 => Some((1, -1)),
+                _ => None,
+            };
+            if u != expect_u {
+                fail(e, "mode", format!("Unit::try_from(piece) = {:?}, expected {:?}", u, expect_u));
+                return;
+            }
+        }
+        // presence of velocity / position
+        let (want_v, want_p) = if a.piece < 4 { (true, true) } else { (ek != 3, ek == 1) };
+        if a.vel.is_some() != want_v || a.pos.is_some() != want_p {
+            fail(e, "presence", format!("velocity present = {} position present = {} but expected {} / {}", a.vel.is_some(), a.pos.is_some(), want_v, want_p));
+            return;
+        }
+        // history = Datum(t, Command(mode, matching accessor)) bit-identical
+        let matching = match a.mode {
+            Some(1) => a.pos,
+            Some(2) => a.vel,
+            _ => a.acc,
+        };
+        let want_h = matching.map(|m| (t, a.mode.unwrap(), m.to_bits()));
+        let h_ok = match (a.hist, want_h) {
+            (Some(x), Some(y)) => x == y || (x.0 == y.0 && x.1 == y.1 && f32::from_bits(x.2).is_nan() && f32::from_bits(y.2).is_nan()),
+            _ => false,
+        };
+        if !h_ok {
+            fail(e, "history", format!("history must be stamped {} with kind {:?} and the bits of the matching accessor {:?}", t, a.mode, matching));
+            return;
+        }
+        // from completion onward: the end state's lowest non-zero derivative, forever
+        if a.piece == 4 {
+            let want = (t, ek, ev.to_bits());
+            if a.hist != Some(want) && !(ev == 0.0 && a.hist.map(|x| (x.0, x.1, f32::from_bits(x.2) == 0.0)) == Some((t, ek, true))) {
+                fail(e, "end-command", format!("after completion the history must return kind {} value {}", ek, ev));
+                return;
+            }
+        }
+    }
+}
+
+const EPS: f64 = f32::EPSILON as f64;
+
+fn c07_profile(s: &Spec, mp: &MotionProfile, e: &mut Eng) {
+    let desc = |what: String| format!("{:?}: {}", s, what);
+    let ts = match debug_times(mp) {
+        Some(d) => d,
+        None => bisect_times(mp),
+    };
+    if !(0 <= ts[0] && ts[0] <= ts[1] && ts[1] <= ts[2]) {
+        e.violation("trapezoid:phase-order", 1, || desc(format!("phase boundaries {:?}", ts)));
+        return;
+    }
+    let sign = if s.p1 < s.p0 { -1.0f64 } else { 1.0 };
+    let a = (s.amax.abs() as f64) * sign;
+    let vmax = s.vmax.abs() as f64;
+    let (p0, v0, p1, v1) = (s.p0 as f64, s.v0 as f64, s.p1 as f64, s.v1 as f64);
+    let sec = |ns: i64| ns as f64 / 1e9;
+    let (t1, t2, t3) = (sec(ts[0]), sec(ts[1]), sec(ts[2]));
+    let vpk = v0 + a * t1;
+    let vref = |t: f64| {
+        if t < t1 {
+            v0 + a * t
+        } else if t < t2 {
+            vpk
+        } else {
+            vpk - a * (t - t2)
+        }
+    };
+    let pref = |t: f64| {
+        if t < t1 {
+            p0 + v0 * t + 0.5 * a * t * t
+        } else if t < t2 {
+            p0 + v0 * t1 + 0.5 * a * t1 * t1 + vpk * (t - t1)
+        } else {
+            p0 + v0 * t1 + 0.5 * a * t1 * t1 + vpk * (t2 - t1) + vpk * (t - t2) - 0.5 * a * (t - t2) * (t - t2)
+        }
+    };
+    let k = 8.0;
+    let vabs = vpk.abs().max(v0.abs()).max(v1.abs()).max(vmax);
+    let tol_v = k * (EPS * (vabs + a.abs() * t3) + a.abs() * 2e-9);
+    let mag_p = p0.abs() + p1.abs() + v0.abs() * t3 + a.abs() * t3 * t3 + vabs * t3;
+    let tol_p = k * (EPS * mag_p + vabs * 2e-9);
+    let fail = |e: &mut Eng, cls: &str, what: String| {
+        e.violation(&format!("trapezoid:{}", cls), 1, || desc(format!("boundaries {:?} (peak velocity {}, signed acceleration {}): {}", ts, vpk, a, what)));
+    };
+    // arrival: the reference trapezoid built from the profile's own boundaries ends at the goal
+    e.checks += 1;
+    let mut worst_v = (vref(t3) - v1).abs() / tol_v.max(1e-300);
+    let mut worst_p = (pref(t3) - p1).abs() / tol_p.max(1e-300);
+    if (vref(t3) - v1).abs() > tol_v {
+        fail(e, "arrival-velocity", format!("velocity at completion {} but the end velocity is {} (tolerance {:e})", vref(t3), v1, tol_v));
+        return;
+    }
+    if (pref(t3) - p1).abs() > tol_p {
+        fail(e, "arrival-position", format!("position at completion {} but the end position is {} (tolerance {:e})", pref(t3), p1, tol_p));
+        return;
+    }
+    // sample instants in [0, t3)
+    let mut times: Vec<i64> = vec![0, 1];
+    for &b in &ts {
+        for d in [-1i64, 0, 1] {
+            times.push(b + d);
+        }
+    }
+    for i in 0..=32 {
+        times.push(((ts[2] as i128) * i / 32) as i64);
+    }
+    times.retain(|&t| t >= 0 && t < ts[2]);
+    times.sort();
+    times.dedup();
+    for &t in &times {
+        e.checks += 1;
+        e.transitions += 3;
+        let tt = sec(t);
+        let (acc, vel, pos) = (q(mp.get_acceleration(Time(t))), q(mp.get_velocity(Time(t))), q(mp.get_position(Time(t))));
+        let (acc, vel, pos) = match (acc, vel, pos) {
+            (Some(x), Some(y), Some(z)) => (x as f64, y as f64, z as f64),
+            _ => {
+                fail(e, "absent-during-move", format!("an accessor is absent at t={} during the move", t));
+                return;
+            }
+        };
+        let want_acc = if t < ts[0] {
+            a
+        } else if t < ts[1] {
+            0.0
+        } else {
+            -a
+        };
+        if acc != want_acc {
+            fail(e, "acceleration", format!("at t={} acceleration {} but the phase demands {}", t, acc, want_acc));
+            return;
+        }
+        if t == 0 && (vel != v0 || pos != p0) {
+            fail(e, "start", format!("at t=0 velocity {} position {} but the start state is ({}, {})", vel, pos, p0, v0));
+            return;
+        }
+        let (dv, dp) = ((vel - vref(tt)).abs(), (pos - pref(tt)).abs());
+        worst_v = worst_v.max(dv / tol_v.max(1e-300));
+        worst_p = worst_p.max(dp / tol_p.max(1e-300));
+        if !(dv <= tol_v) {
+            fail(e, "velocity", format!("at t={} velocity {} but the trapezoid gives {} (tolerance {:e})", t, vel, vref(tt), tol_v));
+            return;
+        }
+        if !(dp <= tol_p) {
+            fail(e, "position", format!("at t={} position {} but the integral of the trapezoid velocity gives {} (tolerance {:e})", t, pos, pref(tt), tol_p));
+            return;
+        }
+        let vlim = vmax.max(v0.abs()).max(v1.abs());
+        if vel.abs() > vlim * (1.0 + k * EPS) + tol_v {
+            fail(e, "velocity-limit", format!("at t={} |velocity| {} exceeds the largest of max_vel and the start/end speeds {}", t, vel.abs(), vlim));
+            return;
+        }
+    }
+    let wv = (worst_v * 1000.0) as i128;
+    let wp = (worst_p * 1000.0) as i128;
+    e.maxi("worst_velocity_error_permille_of_tolerance", wv);
+    e.maxi("worst_position_error_permille_of_tolerance", wp);
+}
+
+fn c07_mirror(s: &Spec, r: &Result<MotionProfile, String>, e: &mut Eng) {
+    let m = s.mirror();
+    let rm = guard(|| m.build());
+    e.transitions += 1;
+    e.checks += 1;
+    let zero = s.p0 == s.p1;
+    let key = if zero { "trapezoid:mirror:zero-displacement" } else { "trapezoid:mirror" };
+    match (r, &rm) {
+        (Err(_), Err(_)) => {}
+        (Ok(a), Ok(b)) => {
+            let (ta, tb) = (debug_times(a).unwrap_or(bisect_times(a)), debug_times(b).unwrap_or(bisect_times(b)));
+            if ta != tb {
+                e.violation(key, 1, || format!("{:?}: phase boundaries {:?} but the mirrored move (all positions and velocities negated) has {:?}", s, ta, tb));
+                return;
+            }
+            for t in query_times(ta) {
+                let (x, y) = (sample(a, t), sample(b, t));
+                let neg = |o: Option<f32>| o.map(|v| (-v).to_bits());
+                let same = x.piece == y.piece
+                    && x.mode == y.mode
+                    && neg(x.acc) == y.acc.map(|v| v.to_bits())
+                    && neg(x.vel) == y.vel.map(|v| v.to_bits())
+                    && neg(x.pos) == y.pos.map(|v| v.to_bits());
+                // -0/+0 are the same output value
+                let same = same
+                    || (x.piece == y.piece
+                        && x.mode == y.mode
+                        && x.acc.map(|v| -v) == y.acc
+                        && x.vel.map(|v| -v) == y.vel
+                        && x.pos.map(|v| -v) == y.pos);
+                if !same {
+                    e.violation(key, 1, || format!("{:?}: at t={} outputs {:?} but the mirrored move gives {:?} (not the exact negation)", s, t, x, y));
+                    return;
+                }
+            }
+        }
+        (a, b) => {
+            e.violation(key, 1, || format!("{:?}: accepted = {} but the mirrored move accepted = {}", s, a.is_ok(), b.is_ok()));
+        }
+    }
+}
+
+fn comfortable(s: &Spec) -> bool {
+    let (vmax, a) = (s.vmax.abs() as f64, s.amax.abs() as f64);
+    let dp = (s.p1 as f64 - s.p0 as f64).abs();
+    if dp == 0.0 || s.v0.abs() as f64 > vmax || s.v1.abs() as f64 > vmax {
+        return false;
+    }
+    let d_acc = (vmax * vmax - (s.v0 as f64).powi(2)) / (2.0 * a);
+    let d_dec = (vmax * vmax - (s.v1 as f64).powi(2)) / (2.0 * a);
+    dp >= 1.05 * (d_acc + d_dec) + 1e-3 * (s.p0.abs() as f64 + s.p1.abs() as f64) + 1e-6
+}
+
+pub fn specs(thorough: bool) -> Vec<Spec> {
+    let pos: Vec<f32> = if thorough { vec![-1e4, -250.0, -3.0, -1.0, -0.015625, 0.0, 0.015625, 1.0, 3.0, 250.0, 1e4] } else { vec![-1e4, -250.0, -1.0, 0.0, 1.0, 250.0, 1e4] };
+    let frac: Vec<f32> = if thorough { vec![-1.0, -0.75, -0.5, 0.0, 0.3, 0.5, 1.0] } else { vec![-1.0, -0.5, 0.0, 0.5, 1.0] };
+    let lim: Vec<f32> = if thorough { vec![1e-2, 0.1, 1.0, 30.0, 1e3] } else { vec![1e-2, 1.0, 1e3] };
+    let mut v = Vec::new();
+    for &p0 in &pos {
+        for &p1 in &pos {
+            for &vm in &lim {
+                for &am in &lim {
+                    for &f0 in &frac {
+                        for &f1 in &frac {
+                            for &a1 in &[0.0f32, 1.0] {
+                                for (sv, sa) in [(1.0f32, 1.0f32), (-1.0, 1.0), (1.0, -1.0), (-1.0, -1.0)] {
+                                    v.push(Spec { p0, v0: f0 * vm, p1, v1: f1 * vm, a1, vmax: vm * sv, amax: am * sa });
+                                }
+                            }
+                        }
+                    }
+                }
+            }
+        }
+    }
+    v
+}
+
+pub fn run(ctx: &Ctx, second: bool) -> Vec<Eng> {
+    let budget = Budget::secs(if ctx.thorough { 2000 } else { 120 });
+    let all = specs(ctx.thorough);
+    let mut e = if !second {
+        Eng::new(
+            "c06-accessor-agreement",
+            "grid of constructor calls (start/end positions up to +-1e4 incl. equal, start/end velocities as fractions of the limit incl. +-1 and 0, end acceleration 0/1, limits 1e-2..1e3, negative limit arguments) under a panic guard; for every accepted profile the phase boundaries are read from the Debug output and cross-checked by bisection on get_piece, and all six accessors are sampled at {i64 MIN, MIN+1, -1e18, -1, 0, 1, each boundary -1/0/+1 ns, two interior points per phase, t3+1s, MAX-1, MAX}; relational oracle (exact): before-start <=> t<0 <=> mode/acceleration/history absent; presence of velocity/position; piece order; mode <-> piece <-> conversions; history = Datum(t, Command(mode, bits of matching accessor)); 0<=t1<=t2<=t3; end command = lowest non-zero derivative of the end state; non-trivial = accepted profile with three non-empty phases",
+            "",
+        )
+    } else {
+        Eng::new(
+            "c07-trapezoid",
+            "same grid; for every accepted profile an f64 trapezoid is built from (start state, signed max acceleration, the profile's own t1..t3) and compared at t=0, boundaries +-1 ns and 33 equally spaced instants: acceleration in {+-a, 0} with the displacement's sign (exact), v(0)=v0 and p(0)=p0 exactly, |v - v_ref| and |p - p_ref| within 16 x (eps x magnitudes + 2 ns x rate) (this is continuity, the integral relation and the velocity bound in one), reference end point = goal within the same tolerance; mirror: negated positions and velocities give identical boundaries and exactly negated outputs; acceptance: comfortably feasible moves never panic; non-trivial = accepted profile with three non-empty phases",
+            "",
+        )
+    };
+    e.bounds = format!("{} constructor calls", all.len());
+    par_cases(&mut e, &all, budget, |s, e| {
+        e.executions += 1;
+        e.states += 1;
+        e.transitions += 1;
+        let r = guard(|| s.build());
+        match &r {
+            Err(m) => {
+                e.count("rejected_by_constructor", 1);
+                if second && comfortable(s) {
+                    e.violation("trapezoid:acceptance", 1, || format!("{:?}: displacement comfortably exceeds acceleration plus deceleration distance and both speeds are inside the limit, but the constructor panicked: {}", s, m));
+                }
+            }
+            Ok(mp) => {
+                e.count("accepted_by_constructor", 1);
+                let ts = debug_times(mp).unwrap_or([0, 0, 0]);
+                if ts[0] > 0 && ts[1] > ts[0] && ts[2] > ts[1] {
+                    e.nontrivial += 1;
+                }
+                e.outcome(h64(&ts));
+                if !second {
+                    c06_profile(s, mp, e);
+                } else {
+                    c07_profile(s, mp, e);
+                }
+                e.sample(|| format!("{:?} -> boundaries {:?}", s, ts));
+            }
+        }
+        if second {
+            c07_mirror(s, &r, e);
+        }
+    });
+    vec![e]
 }
